@@ -2,7 +2,7 @@
    tools/corpuscheck.py seeded [substring] [--as=Cnn,Cmm]  |  tools/corpuscheck.py twins [substring] [Cnn ...]"""
 import concurrent.futures
 import sys
-sys.path.insert(0, '/verif')
+sys.path.insert(0, __import__('os').path.dirname(__import__('os').path.dirname(__import__('os').path.abspath(__file__))))
 from usimlint.corpus import corpus_variants
 from usimlint.selftest import _worker
 
